@@ -151,8 +151,8 @@ func (s *pubSub) OnClose(t notifications.Topic) {
 
 type pubReal struct {
 	p    notifications.Publisher
-	subs [2]*pubSub
-	logs [2][]string
+	subs [4]*pubSub
+	logs [4][]string
 	rets []string
 	n    int
 }
@@ -220,7 +220,7 @@ func pubJudge(m *pubModel, r *pubReal, tailShutdown bool) (sig, what string) {
 	if strings.Join(m.rets, ",") != strings.Join(r.rets, ",") {
 		return "return-values-differ", fmt.Sprintf("Subscribe/Unsubscribe returned %v, expected %v", r.rets, m.rets)
 	}
-	for s := 0; s < 2; s++ {
+	for s := 0; s < len(r.subs); s++ {
 		got := r.logs[s]
 		want := m.logs[s]
 		if tailShutdown {
@@ -362,6 +362,67 @@ func runC18(c *core.Ctx) {
 	}
 	rec(nil)
 	c.Count("sequential_histories", idx)
+	if stop {
+		return
+	}
+	// crowded topics: four subscribers on one topic (two of them on the other as well), then every history
+	// to depth 3 (thorough 4) over the full alphabet for 2 topics x 4 subscribers
+	crowd := []pubOp{{K: "sub", T: 1, S: 0}, {K: "sub", T: 1, S: 1}, {K: "sub", T: 1, S: 2}, {K: "sub", T: 1, S: 3}, {K: "sub", T: 2, S: 1}, {K: "sub", T: 2, S: 3}}
+	var full []pubOp
+	for t := 1; t <= 2; t++ {
+		for sb := 0; sb < 4; sb++ {
+			full = append(full, pubOp{K: "sub", T: t, S: sb})
+		}
+		full = append(full, pubOp{K: "pub", T: t}, pubOp{K: "close", T: t})
+	}
+	for sb := 0; sb < 4; sb++ {
+		full = append(full, pubOp{K: "unsub", S: sb})
+	}
+	full = append(full, pubOp{K: "shut"})
+	cdepth := 3
+	if c.Thorough() {
+		cdepth = 4
+	}
+	var crec func(h []pubOp)
+	crec = func(h []pubOp) {
+		if stop {
+			return
+		}
+		if len(h) > 0 {
+			idx++
+			if c.Mine(idx) {
+				if idx%4096 == 0 && c.Expired() {
+					c.Res.Exhaustive = false
+					stop = true
+					return
+				}
+				hist := append(append([]pubOp{}, crowd...), h...)
+				for _, mode := range []bool{true, false} {
+					sig, what := pubRunSeq(hist, mode)
+					c.Res.Evaluations++
+					c.Res.Traces++
+					c.Res.Transitions += int64(len(hist))
+					name := "seq-burst"
+					if mode {
+						name = "seq-quiesce"
+					}
+					if sig != "" {
+						c.Violate(sig+"/crowded-topic", fmt.Sprintf("[%s] (%s): %s", pubOpsString(hist), name, what), c18Case{Mode: name, History: hist})
+					}
+				}
+				c.Class(fmt.Sprintf("crowded depth=%d", len(h)))
+				c.Res.States++
+				c.Count("crowded_topic_histories", 1)
+			}
+		}
+		if len(h) == cdepth {
+			return
+		}
+		for _, o := range full {
+			crec(append(h, o))
+		}
+	}
+	crec(nil)
 	if stop {
 		return
 	}
@@ -516,7 +577,7 @@ func pubRunConc(cfg vsched.Config, cs c18Case) core.Exec {
 
 func init() {
 	core.Register(&core.Prop{ID: "C18", Level: "model_checking",
-		Rule:        "(a) every history of {Subscribe(t,s), Unsubscribe(s), Publish(t), Close(t), Shutdown} over 2 topics x 2 subscribers up to the stated depth (topic/subscriber symmetry reduced; tree search, no state merging because the registry is private), each executed on the real publisher twice: quiescing after every call, and issuing all calls before the publisher goroutine runs; (b) every pair of 2-call (thorough 3x2) caller sequences from an 8-op alphabet run as two concurrent caller threads after a fixed prelude, all schedules within the deviation bound, observed logs and return values must equal the reference model under some merge of the two sequences; a class is a distinct (open subscriptions, shut down) model state / distinct observed logs",
+		Rule:        "(a) every history of {Subscribe(t,s), Unsubscribe(s), Publish(t), Close(t), Shutdown} over 2 topics x 2 subscribers up to the stated depth (topic/subscriber symmetry reduced; tree search, no state merging because the registry is private), each executed on the real publisher twice: quiescing after every call, and issuing all calls before the publisher goroutine runs; (a') crowded topics: after a prelude that subscribes four subscribers to one topic and two of them to the other, every history to depth 3 (thorough 4) over the full alphabet for 2 topics x 4 subscribers, same two modes; (b) every pair of 2-call (thorough 3x2) caller sequences from an 8-op alphabet run as two concurrent caller threads after a fixed prelude, all schedules within the deviation bound, observed logs and return values must equal the reference model under some merge of the two sequences; a class is a distinct (open subscriptions, shut down) model state / distinct observed logs",
 		Assumptions: []string{"reference model: subscription set; Subscribe while subscribed is idempotent; closes caused by one Unsubscribe/Shutdown may arrive in any order", "after the judged history the harness shuts the publisher down; the closes that causes must be exactly the still-open subscriptions"},
 		Run:         runC18, QuickBudget: 300, ThoroughBudget: 2400,
 		Replay: func(raw json.RawMessage) string {
